@@ -696,7 +696,7 @@ fn watchdog() {
             let cur = (CUR.load(Ordering::Relaxed), PROGRESS.load(Ordering::Relaxed));
             if cur != last.0 {
                 last = (cur, Instant::now());
-            } else if cur.0 >= 0 && last.1.elapsed() > Duration::from_secs(8) {
+            } else if cur.0 >= 0 && last.1.elapsed() > Duration::from_secs(env_secs("VERIF_WATCHDOG_S", 8)) {
                 let cur = cur.0;
                 println!("{{\"hang\":{cur}}}");
                 unsafe { libc::_exit(43) };
@@ -984,7 +984,7 @@ fn tryops_mode(workdir: &str) {
             let cur = STEP.load(Ordering::SeqCst);
             if cur != last.0 {
                 last = (cur, Instant::now());
-            } else if cur % 2 == 1 && last.1.elapsed() > Duration::from_secs(3) {
+            } else if cur % 2 == 1 && last.1.elapsed() > Duration::from_secs(env_secs("VERIF_TRY_HANG_S", 3)) {
                 println!("{}", json!({"ev": "try", "name": names[(cur / 2) as usize], "res": "hang", "nonblock": true}));
                 unsafe { libc::_exit(0) };
             }
@@ -1221,6 +1221,11 @@ fn racers_mode(workdir: &str, rounds: usize, limit_ms: u64) {
         println!("{v}");
     }
     println!("{}", json!({"ev": "end"}));
+}
+
+/// wall-clock limits are defaults only: the check re-runs a tripped case alone with a much larger limit
+fn env_secs(name: &str, default: u64) -> u64 {
+    std::env::var(name).ok().and_then(|s| s.parse().ok()).unwrap_or(default)
 }
 
 fn main() {
